@@ -220,3 +220,10 @@ package netsample
 //@ ensures [writer-over-the-file] imp(err == nil, typeis(a, *phoutAggregator) && a.(*phoutAggregator).config == conf && cap(a.(*phoutAggregator).sink) == conf.SampleQueueSize && len(a.(*phoutAggregator).buf) == 0 && a.(*phoutAggregator).writer == result_of(bufio.NewWriterSize, 0))
 //@ ensures [file-is-closed-by-the-aggregator] imp(err == nil && conf.Destination != "", a.(*phoutAggregator).file == box(result_of(fs.Create, 0)))
 //@ at call bufio.NewWriterSize assert [buffer-in-front-of-the-file] imp(conf.Destination != "", arg(w) == box(result_of(fs.Create, 0)))
+
+// A negative queue size would make NewPhout panic (make of a channel): the decoder rejects it.
+//@ struct PhoutConfig
+//@ props C06 C13 C17
+//@ tag SampleQueueSize validate min=0
+//@ tag SampleQueueSize config sample-queue-size
+//@ tag FlushTime config flush-time
